@@ -27,7 +27,9 @@ POOL = 12
 CHUNK = 600
 RULE = ("one session per unordered pair of the 33-geometry lattice catalogue (all 9 kinds, 45 kind combinations in both "
         "argument orders) x buffer pair x shift offsets, each run at three dyadic time units (6+ calls of compute_affinity "
-        "per unit), plus random sessions on arbitrary doubles; non-trivial = the pair has a positive affinity")
+        "per unit); 'far' sessions: the closed-form pairs (time-only, two boxes) of the same catalogue in ticks of 2^-10 s counted from "
+        "origins of 2^27 / 0 / 2^22 (thorough also 2^18, 2^25) s; plus random sessions on arbitrary doubles, a quarter of them "
+        "millisecond events 2^18..2^27 s along the time axis; non-trivial = the pair has a positive affinity")
 TRUSTED_BASE = ["checks/c06.py + vt/geom.py (build geometries, call compute_affinity / buffer_geometry / compute_bounds, "
                 "encode doubles as limbs and hex; division of observed bounds by the power-of-two time unit)"]
 ASSUMPTIONS = ["dyadic units and power-of-two buffers: time extents of the implementation are exact on the lattice",
@@ -307,6 +309,8 @@ MANIFEST = {
              "self, 0 when disjoint and shift invariant away from 0, and enumerates the sessions (33 geometries of all 9 kinds, "
              "all 45 unordered kind combinations, both argument orders, buffer pairs, shifts). Each session is run on the real code "
              "at three dyadic units; results travel as limb numbers / hex strings and TLC decides every clause (v <= 1 exactly). "
+             "Far sessions put millisecond events up to 2^27 s along the time axis (same closed forms: they are free of scale and, "
+             "away from 0, of origin -- LawOriginFree) and compare origins 2^27 s apart in the Shift clause. "
              "Random sessions on arbitrary doubles (valid, non-self-intersecting geometries of every kind) exercise the numerical "
              "clauses. Bounded-exhaustive on the lattice, sampled beyond."),
     "note": ("trusted: TLC, the binder checks/c06.py (encoder), exact float arithmetic on dyadic units with power-of-two buffers. "
